@@ -126,7 +126,9 @@ where
             }
         }
 
-        Ok(kv_pairs.into_iter().collect())
+        let mut kv_pairs: Vec<(K, V)> = kv_pairs.into_iter().collect();
+        kv_pairs.sort_by_cached_key(|(key, _)| key.encode_vec());
+        Ok(kv_pairs)
     }
 
     /// Returns all keys and values in the database
